@@ -14,6 +14,7 @@ import (
 	"encoding/binary"
 	"errors"
 	"fmt"
+	"io"
 	"log/slog"
 	"net/netip"
 	"strings"
@@ -134,9 +135,12 @@ type mach struct {
 	result *handshake.Result
 	cs1    [32]byte // key of cs1 observed on the twin at completion
 	haveK  bool
+	hook   *hookReader
 }
 
 type exec struct {
+	creds    map[string]handshake.GetCredentialFunc
+	lastHook *hookReader
 	t      *testing.T
 	w      *world
 	cipher noise.CipherFunc
@@ -158,12 +162,35 @@ func (e *exec) verifier() handshake.CertVerifier {
 	}
 }
 
+// credFunc: one Credential object per (identity, version) for the whole case — every Machine of a node shares
+// it, as the Machines of a running nebula node share the Credentials of its CertState.
 func (e *exec) credFunc(id *ident) handshake.GetCredentialFunc {
+	if f, ok := e.creds[id.name]; ok {
+		return f
+	}
 	creds := map[cert.Version]*handshake.Credential{}
 	for v, c := range id.certs {
 		creds[v] = handshake.NewCredential(c, id.hs[v], id.priv, e.suite())
 	}
-	return func(v cert.Version) *handshake.Credential { return creds[v] }
+	f := func(v cert.Version) *handshake.Credential { return creds[v] }
+	e.creds[id.name] = f
+	return f
+}
+
+// hookReader is the randomness source a Machine's noise state captures. The first Read after `fn` is armed
+// runs `fn` first: this is how a second Machine's call is interleaved *inside* the first one's (between its
+// marshalOutgoing and the end of its noise WriteMessage, which draws the ephemeral key) on one goroutine.
+type hookReader struct {
+	real io.Reader
+	fn   func()
+}
+
+func (h *hookReader) Read(p []byte) (int, error) {
+	if f := h.fn; f != nil {
+		h.fn = nil
+		f()
+	}
+	return h.real.Read(p)
 }
 
 func seedOf(a []string) uint64 { return hlib.Atou(a[6]) }
@@ -181,6 +208,9 @@ func (e *exec) construct(a []string) (*handshake.Machine, error) {
 		return uint32(hlib.Atou(a[5])), nil
 	}
 	cryptotest.SetGlobalRandom(e.t, seedOf(a))
+	hk := &hookReader{real: rand.Reader}
+	rand.Reader = hk // what buildHandshakeState hands to noise
+	e.lastHook = hk
 	return handshake.NewMachine(cert.Version(hlib.Atoi(a[3])), e.credFunc(id), e.verifier(), alloc, a[4] == "1",
 		header.MessageSubType(hlib.Atoi(a[7])))
 }
@@ -341,6 +371,9 @@ func (e *exec) observe(a []string) string {
 		}
 		return fmt.Sprintf("len=%d st=%d rd=%s msg=%s k1=%d k2=%d ps=%s rc=%s vf=%s wr=%s now=%d",
 			len(pkt), st, rd, msgHex, k1, k2, ps, rc, vf, wr, time.Now().UnixNano())
+	case "ilv":
+		sa, sb := splitIlv(a)
+		return e.observe(sa) + " // " + e.observe(sb)
 	case "mut":
 		return fmt.Sprintf("len=%d", len(e.mutate(a)))
 	case "forge":
@@ -518,6 +551,7 @@ func (e *exec) run(a []string) string {
 		}
 		e.ms = map[string]*mach{}
 		e.regs = map[string][]byte{}
+		e.creds = map[string]handshake.GetCredentialFunc{}
 		return "ok"
 	case "new":
 		m, err := e.construct(a)
@@ -525,7 +559,7 @@ func (e *exec) run(a []string) string {
 			delete(e.ms, a[1])
 			return "err:" + errKind(err)
 		}
-		e.ms[a[1]] = &mach{m: m, args: append([]string(nil), a...)}
+		e.ms[a[1]] = &mach{m: m, args: append([]string(nil), a...), hook: e.lastHook}
 		return "ok"
 	case "init":
 		mm := e.ms[a[1]]
@@ -566,6 +600,18 @@ func (e *exec) run(a []string) string {
 				res.HandshakeTime, res.MessageIndex, hlib.B(res.Initiator), pk)
 		}
 		return "ok resp=" + hdrStr(out) + " res=" + rs + " " + tail
+	case "ilv":
+		// the second call runs while noise draws the first call's ephemeral key (if it draws one)
+		sa, sb := splitIlv(a)
+		ansB, fired := "", false
+		hk := e.ms[sa[1]].hook
+		hk.fn = func() { fired = true; ansB = e.run(sb) }
+		ansA := e.run(sa)
+		hk.fn = nil
+		if !fired {
+			ansB = e.run(sb)
+		}
+		return ansA + " ;; " + ansB + " ;; nested=" + hlib.B(fired)
 	case "mut":
 		out := e.mutate(a)
 		e.regs[a[1]] = out
@@ -630,6 +676,17 @@ func (e *exec) run(a []string) string {
 	return "bad-op"
 }
 
+// `ilv <mA> <init|pp> <args…> // <mB> <init|pp> <args…>` -> the two plain ops
+func splitIlv(a []string) ([]string, []string) {
+	for i, x := range a {
+		if x == "//" {
+			mk := func(t []string) []string { return append([]string{t[1], t[0]}, t[2:]...) }
+			return mk(a[1:i]), mk(a[i+1:])
+		}
+	}
+	panic("harness: malformed ilv op")
+}
+
 func splitAnn(a []string) ([]string, string) {
 	for i, x := range a {
 		if x == "|" {
@@ -649,6 +706,12 @@ func newExec(t *testing.T) func([]string) string {
 		if op[0] != "reset" {
 			if (op[0] == "init" || op[0] == "pp") && e.ms[op[1]] == nil {
 				return "bad-op"
+			}
+			if op[0] == "ilv" {
+				sa, sb := splitIlv(op)
+				if e.ms[sa[1]] == nil || e.ms[sb[1]] == nil || sa[1] == sb[1] {
+					return "bad-op"
+				}
 			}
 			if got := e.observe(op); got != ann {
 				return "ORACLE-DRIFT got=" + strings.ReplaceAll(got, " ", ",")
@@ -679,6 +742,10 @@ func gen(r *hlib.Rand, n int, tier, profile string, emit func(string, ...any)) {
 		}
 		forgeIdx := r.Intn(len(forgeCerts) * 32)
 		for i := 0; i < n; i++ {
+			if i%8 == 5 {
+				genOverlapCase(r, do)
+				continue
+			}
 			if i%3 == 1 {
 				// certificates in every encoding the decoder can be fed, from a peer that is not a Machine:
 				// the whole cross product is walked, starting at a seed-dependent position
@@ -689,6 +756,60 @@ func gen(r *hlib.Rand, n int, tier, profile string, emit func(string, ...any)) {
 			genCase(r, e, do, tier, profile)
 		}
 	})
+}
+
+// genOverlapCase: one node (identity A, ONE shared Credential) runs two handshakes at once; the second Machine's
+// call executes inside the first one's, at the point where noise draws the ephemeral key. Each packet must still
+// carry its own Machine's indexes (oracle: index placement at the receiver, and `pair`). X25519 only: that is
+// where noise reads the captured reader (Go's P-256 key generation ignores a caller-supplied reader).
+func genOverlapCase(r *hlib.Rand, do func(string, ...any) string) {
+	do("reset x %s", hlib.Pick(r, "aes", "chacha"))
+	// indexes whose varint encodings have equal length, and a few that do not
+	idx := func() int {
+		if r.Chance(1, 5) {
+			return 1 + r.Intn(1<<30)
+		}
+		return 1<<28 + r.Intn(1<<29)
+	}
+	node := hlib.Pick(r, "A", "B")
+	peer := "B"
+	if node == "B" {
+		peer = "A"
+	}
+	i1, i2, p1, p2 := idx(), idx(), idx(), idx()
+	if r.Bool() {
+		// two outbound handshakes of the node overlap
+		if do("new I1 %s 2 1 %d %d 0", node, i1, r.Intn(1<<30)) != "ok" || do("new I2 %s 2 1 %d %d 0", node, i2, r.Intn(1<<30)) != "ok" {
+			return
+		}
+		do("new R1 %s 2 0 %d %d 0", peer, p1, r.Intn(1<<30))
+		do("new R2 %s 2 0 %d %d 0", peer, p2, r.Intn(1<<30))
+		do("ilv I1 init m1a // I2 init m1b")
+		do("pp R1 m1a m2a")
+		do("pp R2 m1b m2b")
+		do("pp I1 m2a x1")
+		do("pp I2 m2b x2")
+		do("pair I1 R1")
+		do("pair I2 R2")
+		return
+	}
+	// the node answers an inbound handshake while it starts an outbound one (and the other way round)
+	if do("new P %s 2 1 %d %d 0", peer, p1, r.Intn(1<<30)) != "ok" || do("new R %s 2 0 %d %d 0", node, i1, r.Intn(1<<30)) != "ok" ||
+		do("new I2 %s 2 1 %d %d 0", node, i2, r.Intn(1<<30)) != "ok" {
+		return
+	}
+	do("new R2 %s 2 0 %d %d 0", peer, p2, r.Intn(1<<30))
+	do("init P m1")
+	if r.Bool() {
+		do("ilv R pp m1 m2 // I2 init n1")
+	} else {
+		do("ilv I2 init n1 // R pp m1 m2")
+	}
+	do("pp P m2 x1")
+	do("pp R2 n1 n2")
+	do("pp I2 n2 x2")
+	do("pair P R")
+	do("pair I2 R2")
 }
 
 var forgeCerts = []struct {
